@@ -28,7 +28,7 @@ pub trait RollingValidCmp<T: IsNone>: Vec1View<T> {
         T::Inner: Number,
         f64: Cast<U>,
     {
-        let window = min(self.len(), window);
+        let window = min(self.len().max(1), window);
         let mut min: Option<T::Inner> = None;
         let mut min_idx: Option<usize> = None;
         let mut n = 0;
@@ -106,7 +106,7 @@ pub trait RollingValidCmp<T: IsNone>: Vec1View<T> {
         T::Inner: Number,
         Option<T::Inner>: Cast<U>,
     {
-        let window = min(self.len(), window);
+        let window = min(self.len().max(1), window);
         let mut min: Option<T::Inner> = None;
         let mut min_idx: Option<usize> = None;
         let mut n = 0;
@@ -180,7 +180,7 @@ pub trait RollingValidCmp<T: IsNone>: Vec1View<T> {
         T::Inner: Number,
         f64: Cast<U>,
     {
-        let window = min(self.len(), window);
+        let window = min(self.len().max(1), window);
         let mut max: Option<T::Inner> = None;
         let mut max_idx: Option<usize> = None;
         let mut n = 0;
@@ -258,7 +258,7 @@ pub trait RollingValidCmp<T: IsNone>: Vec1View<T> {
         T::Inner: Number,
         Option<T::Inner>: Cast<U>,
     {
-        let window = min(self.len(), window);
+        let window = min(self.len().max(1), window);
         let mut max: Option<T::Inner> = None;
         let mut max_idx: Option<usize> = None;
         let mut n = 0;
@@ -336,7 +336,7 @@ pub trait RollingValidCmp<T: IsNone>: Vec1View<T> {
         T::Inner: Number,
         f64: Cast<U>,
     {
-        let window = min(self.len(), window);
+        let window = min(self.len().max(1), window);
         let min_periods = min_periods.unwrap_or(window / 2);
         let w_m1 = window - 1; // window minus one
         let mut n = 0usize; // keep the num of valid elements
